@@ -104,7 +104,7 @@ def cases(draw: Any, tier: str) -> Dict[str, Any]:
     P = draw(gen.flat_prog(min_sites=2, max_sites=9, max_deps=3, resources=gen.RES, prio_range=(-2, 3), seq_rate=0.1,
                            dep_kinds=("pos", "kw", "flag") if draw(st.booleans()) else ("pos", "kw"), reuse=True,
                            n_setup=draw(st.integers(0, 2)), n_debug=draw(st.integers(0, 2)),
-                           dup_rate=0.2, mark_roots=not want_sel, split_rate=0.25))
+                           dup_rate=0.2, mark_roots=not want_sel, split_rate=0.25, same_qual_rate=0.1))
     if draw(st.sampled_from([True] + [False] * 7)):
         # one decorated function at 10-13 call sites: the per-call-site ids reach <<10>> and beyond
         n = draw(st.integers(10, 13))
